@@ -447,6 +447,17 @@ func c17(e *Env) {
 			n := w.Nodes[1+c.Choose("evilnode", len(w.Nodes)-1)]
 			n.EvilHeartbeat = 1 + c.Choose("evilhbn", 3)
 		}
+		if c.Choose("oddlocal", 14) == 13 {
+			// a node (never the healthy one) answers the proxy's next system.local queries with a null
+			// where its address, data centre or host id belongs, and the control connection is lost so
+			// that the fail-over gets to ask it
+			n := w.Nodes[1+c.Choose("oddlocalnode", len(w.Nodes)-1)]
+			n.OddLocalRows, n.OddLocalKind = 1+c.Choose("oddlocaln", 3), c.Choose("oddlocalkind", 4)
+			for _, bc := range append([]*world.BackendConn(nil), w.ControlConns...) {
+				bc.Reset("fault: control connection lost (hostile system.local ahead)")
+			}
+			e.Res.Stats["probe.c17.system_local_with_null_column_armed"]++
+		}
 		if c.Choose("evilevent", 12) == 11 {
 			for _, bc := range w.ControlConns {
 				if bc.Node != healthy && !bc.Closed {
